@@ -593,6 +593,11 @@ def run(ctx, crate):
     rule_fraction_clamp(ctx, crate)
     rule_char_width_coherent(ctx, crate)
     rule_cluster_measure(ctx, crate)
+    # "{bar:N} always occupies floor(N/c) cells" on the *line*: the bar's text passes through the padding/truncation step, which
+    # must neither cut nor pad by anything but display columns (a `{bar:20!.cyan/blue}` whose escape bytes are counted as columns
+    # loses cells: seed C13l)
+    from .c12 import rule_trunc_keeps_width
+    rule_trunc_keeps_width(ctx, crate)
 
     # ---- R-WIDE-BAR-WIDTH ---------------------------------------------------------------------------------
     rule = "R-WIDE-BAR-WIDTH"
